@@ -8,6 +8,39 @@ from . import c01
 S_VALUES = ["dflt_x", "s"]      # a fresh name; a name the programs also use as an explicit qualifier
 
 
+def column_part(chk, quick, rnd):
+    """column owners under a default schema: Col.tla programs (incl. a qualifier that names nothing in scope and falls back to
+    a table of that name) analysed under the scoped override, the environment variable and as qualified text"""
+    from . import c02
+    S = "dflt_x"
+    g = chk.tlc("Col", c02.cfg(chk, "colgen", Emit=True, Schemas={"none", "s"}, TAliases={"x"}, SAliases={"u"}, Kinds={"insert"}, MaxItems=1, WithForeign=True),
+                "generate: column-level programs with a foreign qualifier", workers=1, coverage=False, timeout=6000)
+    cases = g.cases("CASE")
+    rnd.shuffle(cases)
+    cases = cases[:700 if quick else 6000]
+    jobs = []
+    for c in cases:
+        jobs.append({"prog": c["prog"], "flow": c["flow"], "metadata": False, "ds": S, "mech": "scoped", "opts": {}})
+        if not any(r["r"] == 9 for it in c["prog"]["items"] for r in it["refs"]):
+            # (a schema-qualified column qualifier is not something the core grammar writes: the fallback is exercised by the
+            # two configuration mechanisms only)
+            jobs.append({"prog": c["prog"], "flow": c["flow"], "metadata": False, "ds": S, "mech": "qualified", "opts": {"qualify": S}})
+    obs = c02.run_jobs(jobs)
+    import multiprocessing as mp
+    pool = mp.Pool(16, initializer=stmt_variants._init, initargs=({"SQLLINEAGE_DEFAULT_SCHEMA": S},))
+    try:
+        ejobs = [{"prog": c["prog"], "flow": c["flow"], "metadata": False, "ds": S, "mech": "env", "opts": {}} for c in cases]
+        eres = pool.map(c02._run_chunk, c02.chunks(ejobs, 96))
+    finally:
+        pool.terminate()
+    jobs += ejobs
+    obs += [x for part in eres for x in part]
+    verdicts, keep = c02.decide(chk, jobs, obs, "colds")
+    for (j, o), v in zip(keep, verdicts):
+        chk.count(["col", j["prog"], j["mech"]], nontrivial=True)
+    chk.cov["column_level_verdicts"] = {k: verdicts.count(k) for k in sorted(set(verdicts))}
+
+
 def run(chk):
     quick = chk.tier == "quick"
     rnd = random.Random(chk.seed)
@@ -46,6 +79,7 @@ def run(chk):
     for c, o in zip(cases, obs_n):
         all_c.append(c)
         all_o.append(o)
+    column_part(chk, quick, rnd)
     verdicts = c01.decide(chk, all_c, all_o, "ds")
     for c, o in zip(all_c, all_o):
         chk.count([c["prog"], o["mech"], o["ds"]], nontrivial=o["mech"] != "none")
@@ -61,4 +95,4 @@ def run(chk):
                        "program also uses as qualifier} x {scoped override, environment variable set before import (own worker pool), textual "
                        "qualification with no default} + no default at all; every observation decided by Trace_Stmt with ds = S. "
                        "non-trivial = a default schema is in force." % len(cases))
-    chk.assumptions += ["table level here; column owners under a default schema are covered by the column-level check (C02 family) with the same mechanisms"]
+    chk.assumptions += ["column owners under a default schema: Col.tla programs (one item, incl. the unknown-qualifier fallback) under the same three mechanisms, names under the fresh default written back to the placeholder before Trace_Col decides"]
